@@ -143,6 +143,10 @@ def stub_drawing(v):
         v.figure.canvas.draw = lambda *a, **k: None
 
 
+class InvalidHistory(Exception):
+    """the history refers to an object that does not exist (can happen while shrinking)"""
+
+
 class Sess(object):
     """one real session (application, collection, viewers) plus the id <-> object maps of the harness"""
 
@@ -241,8 +245,16 @@ class Sess(object):
                 self.given[vi].remove(d)
         elif k == 'addsub':
             vi, d, g, r = op[1:5]
-            same = [s for s in self.get_data(d).subsets if s.group is self.groups[g]]
+            same = [s for s in self.get_data(d).subsets if g in self.groups and s.group is self.groups[g]]
+            if r >= len(same) or not any(self.get_data(d) is x for x in self.dc):
+                raise InvalidHistory()
             self.viewers[vi].add_subset(same[r])
+        elif k == 'rmlayer':
+            # only the dataset's own layer artist is removed (what the layer list of the GUI does); its subsets' layers stay
+            vi, d = op[1], op[2]
+            self.viewers[vi].remove_layer(self.get_data(d))
+            if d in self.given[vi]:
+                self.given[vi].remove(d)
         elif k == 'restore':
             self.restore()
         else:
@@ -324,9 +336,12 @@ class Sess(object):
         import collections
         have = collections.Counter(id(x) for x in arts)
         want = collections.Counter(id(x) for x in expected)
-        if have != want:
-            missing = [self.layer_key(x) for x in expected if have[id(x)] < want[id(x)]]
-            extra = [self.layer_key(x) for x in arts if have[id(x)] > want[id(x)]]
+        # exactly one layer for every given dataset and each of its current subsets; no other dataset layer; nothing twice.
+        # (a subset layer of a dataset that is not given - handed over with add_subset, or left behind by remove_layer(data) -
+        #  is allowed as long as it is a current subset of a dataset in the collection: checked below)
+        missing = [self.layer_key(x) for x in expected if have[id(x)] < want[id(x)]]
+        extra = [self.layer_key(x) for x in arts if have[id(x)] > max(want[id(x)], 1) or (isinstance(x, BaseData) and want[id(x)] == 0)]
+        if missing or extra:
             problems.append('layers differ from given datasets + their subsets: missing %r, extra or duplicated %r' % (missing, extra))
         if [id(x) for x in arts] != [id(x) for x in sls]:
             problems.append('layer artists %r and state.layers %r disagree' % ([self.layer_key(x) for x in arts], [self.layer_key(x) for x in sls]))
@@ -487,6 +502,8 @@ def model_ops(ops, vi):
             out.append((6, [op[2]]) if op[1] == vi else None)
         elif k == 'addsub':
             out.append((7, [op[2], op[3], op[4]]) if op[1] == vi else None)
+        elif k == 'rmlayer':
+            out.append((9, [op[2]]) if op[1] == vi else None)
         elif k == 'restore':
             out.append((8, []))
     return out
@@ -518,7 +535,7 @@ def known_ids(ops):
     for op in ops:
         if op[0] in ('append', 'remove'):
             s.add(op[1])
-        elif op[0] in ('add', 'rmdata', 'addsub'):
+        elif op[0] in ('add', 'rmdata', 'addsub', 'rmlayer'):
             s.add(op[2])
     return sorted(s)
 
@@ -542,12 +559,15 @@ def impl_history(kinds, ops, fixed, draw=False):
             conc.append(op)
             try:
                 status = sess.apply(op)
+            except InvalidHistory:
+                conc.pop()
+                break
             except Exception as e:     # any exception other than the modelled one is itself a failure of the history
                 crash = (i, '%s: %s' % (type(e).__name__, e))
                 break
             for vi in range(len(kinds)):
                 o = sess.observe(vi, known)
-                mine = op[0] in ('add', 'rmdata', 'addsub') and op[1] == vi
+                mine = op[0] in ('add', 'rmdata', 'addsub', 'rmlayer') and op[1] == vi
                 o['status'] = status if mine else 0
                 o['given'] = list(sess.given[vi])
                 impl[vi].append((i, o))
@@ -560,6 +580,16 @@ def impl_history(kinds, ops, fixed, draw=False):
     if crash is not None and orac is None:
         orac = {'step': crash[0], 'viewer': 'all', 'problems': ['operation raised ' + crash[1]]}
     return conc, orac, impl
+
+
+def has_lone_subset(impl):
+    """did some viewer, at some step, show a subset layer without its dataset's layer?"""
+    for per in impl:
+        for _, o in per:
+            shown = set(x[1] for x in o['arts'] if x[0] == 0)
+            if any(x[0] == 1 and x[1] not in shown for x in o['arts']):
+                return True
+    return False
 
 
 def history_lines(kinds, ops, fixed):
@@ -637,8 +667,8 @@ def valid_history(ops):
             made.add(op[1])
         elif op[0] == 'rmgroup' and op[1] not in made:
             return False
-        elif op[0] == 'addsub':
-            return False if op[3] not in made else True
+        elif op[0] == 'addsub' and op[3] not in made:
+            return False
     return True
 
 
@@ -657,7 +687,7 @@ def report_history(R, kinds, ops, fixed, stream, draw, orac, corr):
 
 
 # ---------------------------------------------------------------------- stream: light viewer, exhaustive
-LIGHT_SYMS = ['app0', 'app1', 'rem0', 'rem1', 'newg', 'rmg_old', 'rmg_new', 'add0', 'add1', 'rmd0', 'rmd1', 'addsub', 'restore']
+LIGHT_SYMS = ['app0', 'app1', 'rem0', 'rem1', 'newg', 'rmg_old', 'rmg_new', 'add0', 'add1', 'rmd0', 'rmd1', 'addsub', 'restore', 'rml0', 'rml1']
 
 
 def resolve_symbols(prefix, syms):
@@ -694,6 +724,8 @@ def resolve_symbols(prefix, syms):
             ops.append(('add', 0, int(s[-1])))
         elif s in ('rmd0', 'rmd1'):
             ops.append(('rmdata', 0, int(s[-1])))
+        elif s in ('rml0', 'rml1'):
+            ops.append(('rmlayer', 0, int(s[-1])))
         elif s == 'addsub':
             ops.append(('addsub?',))
         elif s == 'restore':
@@ -702,28 +734,41 @@ def resolve_symbols(prefix, syms):
 
 
 def concretise_addsub(sess, rng_pick=0):
-    """an in-domain add_subset: some current subset of a dataset the viewer shows (decided on the real state)"""
-    from glue.core import BaseData
+    """an in-domain add_subset: some current subset of a dataset of the collection, preferably one that has no layer yet in the
+    chosen viewer (a lone subset layer, its dataset not shown); decided on the real state"""
     nv = len(sess.viewers)
-    for off in range(nv):
-        vi = (rng_pick + off) % nv
-        v = sess.viewers[vi]
-        for a in v._layer_artist_container.artists:
-            if isinstance(a.layer, BaseData) and a.layer.subsets:
-                d = sess.data_id(a.layer)
-                sub = a.layer.subsets[rng_pick % len(a.layer.subsets)]
-                g = sess.group_id(sub.group)
-                same = [x for x in a.layer.subsets if x.group is sub.group]
-                r = [i for i, x in enumerate(same) if x is sub][0]
-                return ('addsub', vi, d, g, r)
+    for prefer_lone in (True, False):
+        for off in range(nv):
+            vi = (rng_pick + off) % nv
+            v = sess.viewers[vi]
+            shown = [a.layer for a in v._layer_artist_container.artists]
+            cands = []
+            for data in sess.dc:
+                for sub in data.subsets:
+                    present = any(sub is x for x in shown)
+                    if present != prefer_lone:
+                        cands.append((data, sub))
+            if not cands:
+                continue
+            data, sub = cands[rng_pick % len(cands)]
+            d = sess.data_id(data)
+            g = sess.group_id(getattr(sub, 'group', None))
+            if d < 0 or g < 0:
+                continue
+            same = [x for x in data.subsets if getattr(x, 'group', None) is sub.group]
+            r = [i for i, x in enumerate(same) if x is sub][0]
+            return ('addsub', vi, d, g, r)
     return None
 
 
 def stream_viewer_light(R, fixed):
     prefixes = [[],
                 [('append', 0), ('append', 1), ('newgroup', 0), ('add', 0, 0)],
-                [('append', 0), ('newgroup', 0), ('add', 0, 0), ('remove', 0), ('append', 0)]]
-    depth = R.pick([3, 3, 2], [4, 3, 3])
+                [('append', 0), ('newgroup', 0), ('add', 0, 0), ('remove', 0), ('append', 0)],
+                # a subset layer without its dataset's layer: left behind by remove_layer(data) / handed over alone
+                [('append', 0), ('append', 1), ('newgroup', 0), ('add', 0, 0), ('rmlayer', 0, 0)],
+                [('append', 0), ('newgroup', 0), ('newgroup', 1), ('addsub', 0, 0, 0, 0)]]
+    depth = R.pick([3, 2, 2, 2, 2], [4, 3, 3, 3, 3])
     t0 = time.time()
     batch = []
     for prefix, k in zip(prefixes, depth):
@@ -734,7 +779,8 @@ def stream_viewer_light(R, fixed):
                     continue
                 conc, orac, impl = impl_history(['light'], ops, fixed)
                 batch.append((conc, orac, impl))
-                R.count(('light', tuple(map(tuple, conc))), nontrivial=any(o[0] == 'add' for o in conc), stream='viewer_light', history_len=len(conc))
+                R.count(('light', tuple(map(tuple, conc))), nontrivial=any(o[0] in ('add', 'addsub') for o in conc), stream='viewer_light', history_len=len(conc),
+                        light_lone_subset_layer=has_lone_subset(impl))
                 for o in conc:
                     R.hist['viewer_op'][o[0]] += 1
     lines = [history_lines(['light'], conc, fixed)[0] for conc, _, _ in batch]
@@ -747,16 +793,40 @@ def stream_viewer_light(R, fixed):
             report_history(R, ['light'], conc, fixed, 'viewer_light', False, orac, corr)
     R.sample({'viewer_light': [list(o) for o in resolve_symbols(prefixes[1], ('newg', 'rem0', 'app0')) if o[0] != 'addsub?']})
     R.stream('viewer_light', cases=len(batch), exhaustive=True, wall_s=round(time.time() - t0, 1),
-             bound='all sequences over %d symbols (2 datasets, fresh groups, one viewer, save/restore) of length <= %s after 3 prefixes' % (len(LIGHT_SYMS), depth))
+             bound='all sequences over %d symbols (2 datasets, fresh groups, one viewer, save/restore, add_subset of any current subset, remove_layer of a dataset layer) of length <= %s after %d prefixes' % (len(LIGHT_SYMS), depth, len(prefixes)))
 
 
 # ---------------------------------------------------------------------- stream: matplotlib viewers, random
-def random_history(rng, nviewers, length, with_restore, ndata=3):
+def random_history(rng, nviewers, length, with_restore, ndata=3, lone=False):
     ops = []
     in_dc, live, dead, ng = set(), [], [], 0
     shown = [set() for _ in range(nviewers)]
+    if lone:
+        # preamble that leaves subset layers without their dataset's layer: a subset handed over alone, or the dataset's
+        # own layer removed afterwards; the random tail then deletes groups / datasets and re-adds
+        a, b = rng.sample(range(ndata), 2)
+        ops += [('append', a), ('append', b), ('newgroup', 0)]
+        in_dc.update([a, b])
+        live.append(0)
+        ng = 1
+        for vi in range(nviewers):
+            if rng.random() < 0.5:
+                ops.append(('addsub?',))
+            else:
+                d = rng.choice([a, b])
+                ops += [('add', vi, d), ('rmlayer', vi, d)]
+        if rng.random() < 0.5:
+            ops.append(('newgroup', 1))
+            live.append(1)
+            ng = 2
     for _ in range(length):
         r = rng.random()
+        if lone and r < 0.12 and live:
+            g = rng.choice(live)
+            live.remove(g)
+            dead.append(g)
+            ops.append(('rmgroup', g))
+            continue
         d = rng.randrange(ndata)
         vi = rng.randrange(nviewers)
         if r < 0.16:
@@ -785,19 +855,24 @@ def random_history(rng, nviewers, length, with_restore, ndata=3):
             else:
                 ops.append(('append', d))
                 in_dc.add(d)
-        elif r < 0.78:
+        elif r < 0.74:
             if in_dc and rng.random() < 0.9:
                 d = rng.choice(sorted(in_dc))
             ops.append(('add', vi, d))
             if d in in_dc:
                 shown[vi].add(d)
-        elif r < 0.90:
+        elif r < 0.84:
             if shown[vi] and rng.random() < 0.8:
                 d = rng.choice(sorted(shown[vi]))
             ops.append(('rmdata', vi, d))
             shown[vi].discard(d)
-        elif r < 0.95:
+        elif r < 0.93:
             ops.append(('addsub?',))
+        elif r < 0.96:
+            if shown[vi] and rng.random() < 0.8:
+                d = rng.choice(sorted(shown[vi]))
+            ops.append(('rmlayer', vi, d))
+            shown[vi].discard(d)
         else:
             ops.append(('restore',) if with_restore else ('add', vi, d))
             if not with_restore and d in in_dc:
@@ -847,11 +922,11 @@ def stream_viewer_mpl(R, fixed):
         i += 1
         if not kinds:
             continue
-        ops = random_history(rng, len(kinds), length, with_restore)
+        ops = random_history(rng, len(kinds), length if i % 2 else max(4, length - 8), with_restore, lone=(i % 2 == 0))
         conc, orac, impl = impl_history(kinds, ops, fixed, draw=draw)
         batch.append((kinds, draw, conc, orac, impl))
-        R.count(('mpl', tuple(kinds), tuple(map(tuple, conc))), nontrivial=any(o[0] == 'add' for o in conc), stream='viewer_mpl',
-                history_len=len(conc), viewer_kinds='+'.join(kinds), drawing=('agg' if draw else 'stub'))
+        R.count(('mpl', tuple(kinds), tuple(map(tuple, conc))), nontrivial=any(o[0] in ('add', 'addsub') for o in conc), stream='viewer_mpl',
+                history_len=len(conc), viewer_kinds='+'.join(kinds), drawing=('agg' if draw else 'stub'), mpl_lone_subset_layer=has_lone_subset(impl))
         for o in conc:
             R.hist['viewer_op'][o[0]] += 1
         if len(batch) <= 2:
@@ -870,7 +945,7 @@ def stream_viewer_mpl(R, fixed):
             nfail += 1
             report_history(R, kinds, conc, fixed, 'viewer_mpl', draw, orac, corr)
     R.stream('viewer_mpl', cases=len(batch), exhaustive=False, wall_s=round(time.time() - t0, 1),
-             bound='random histories of 8..20 ops over 3 datasets, fresh groups, 1-4 viewers on one collection; every 10th with real Agg drawing')
+             bound='random histories of 8..20 ops over 3 datasets, fresh groups, 1-4 viewers on one collection; every second history starts with a preamble that leaves subset layers without their dataset layer (add_subset alone / remove_layer(data)) and removes groups more often; every 10th with real Agg drawing')
 
 
 # ====================================================================== pickers
